@@ -109,3 +109,112 @@ func concFreshCase(k *engine.Case) {
 		k.Fail("concurrent-write-lost", "%s (shards=%d, xhash=%v): %d writes by concurrent callers to a fresh container were lost; %s", names[kindSel], rt.n, rt.xhash, lost, first)
 	}
 }
+
+// concOverwriteCase: a key that is only ever overwritten is always present. Writers keep
+// overwriting a few keys of a sharded map / LRU (with capacity to spare) while readers look
+// them up; on the unsharded structures an overwrite happens under one lock hold, so no reader
+// can find the key missing - the sharded ones have to answer the same.
+func concOverwriteCase(k *engine.Case) {
+	r := k.R
+	old := runtime.GOMAXPROCS([]int{2, 4, 8, 16}[r.Intn(4)])
+	defer runtime.GOMAXPROCS(old)
+	kindSel := r.Intn(3)
+	rt := route{n: []uint64{1, 2, 3, 7, 73}[r.Intn(5)], xhash: r.Intn(2) == 0}
+	names := []string{"cache.WideMap", "cache.WideLRUCache", "tiny.WideLRUCache"}
+	var set func(key interface{}, id int)
+	var probes []func(key interface{}) bool
+	switch kindSel {
+	case 0:
+		var m cache.MapFacade
+		if rt.xhash {
+			m = cache.NewWideXHashMap(rt.opts()...)
+		} else {
+			m = cache.NewWideMap(rt.opts()...)
+		}
+		set = func(key interface{}, id int) { m.Set(key, id) }
+		probes = []func(key interface{}) bool{
+			func(key interface{}) bool { _, ok := m.Get(key); return ok },
+			m.Exist,
+		}
+	case 1:
+		var c cache.LRUFacade
+		if rt.xhash {
+			c = cache.NewWideXHashLRUCache(1<<40, rt.opts()...)
+		} else {
+			c = cache.NeWideLRUCache(1<<40, rt.opts()...)
+		}
+		set = func(key interface{}, id int) { c.Set(key, lval{id, 1}) }
+		probes = []func(key interface{}) bool{
+			func(key interface{}) bool { _, ok := c.Get(key); return ok },
+			func(key interface{}) bool { _, ok := c.Peek(key); return ok },
+			c.Exist,
+		}
+	default:
+		var c tiny.LRU
+		if rt.xhash {
+			c = tiny.NewWideXHashLRU(1<<40, rt.opts()...)
+		} else {
+			c = tiny.NeWideLRU(1<<40, rt.opts()...)
+		}
+		set = func(key interface{}, id int) { c.Set(key, lval{id, 1}) }
+		probes = []func(key interface{}) bool{
+			func(key interface{}) bool { _, ok := c.Get(key); return ok },
+			func(key interface{}) bool { _, ok := c.Peek(key); return ok },
+			c.Exist,
+		}
+	}
+	keys := []interface{}{"hot", 7, int64(-3)}
+	for _, key := range keys {
+		set(key, 0)
+	}
+	writers, readers, iters := 2, 4, 4000
+	k.Logf("%s shards=%d xhash=%v: %d writers overwrite %d keys %d times each, %d readers look them up", names[kindSel], rt.n, rt.xhash, writers, len(keys), iters, readers)
+	k.Nontrivial()
+	var wg sync.WaitGroup
+	var stop, misses atomicInt
+	var firstMu sync.Mutex
+	first := ""
+	for w := 0; w < writers; w++ {
+		w := w
+		wg.Add(1)
+		go func() {
+			defer wg.Done()
+			for i := 1; i <= iters; i++ {
+				set(keys[i%len(keys)], w*iters+i)
+			}
+			stop.add(1)
+		}()
+	}
+	for rd := 0; rd < readers; rd++ {
+		rd := rd
+		wg.Add(1)
+		go func() {
+			defer wg.Done()
+			for i := 0; stop.load() < int64(writers); i++ {
+				key := keys[(i+rd)%len(keys)]
+				if !probes[i%len(probes)](key) {
+					misses.add(1)
+					firstMu.Lock()
+					if first == "" {
+						first = fmt.Sprintf("probe %d of key %v", i%len(probes), key)
+					}
+					firstMu.Unlock()
+				}
+			}
+		}()
+	}
+	wg.Wait()
+	k.Evals(int64(writers * iters))
+	k.Count("conc_overwrite_writes", int64(writers*iters))
+	if n := misses.load(); n > 0 {
+		k.Fail("container-answer", "%s shards=%d xhash=%v: %d look-ups of keys that were set before and are only ever overwritten reported them missing (first: %s); the unsharded structure overwrites under one lock hold", names[kindSel], rt.n, rt.xhash, n, first)
+	}
+}
+
+type atomicInt struct {
+	mu sync.Mutex
+	v  int64
+}
+
+func (a *atomicInt) add(d int64) { a.mu.Lock(); a.v += d; a.mu.Unlock() }
+func (a *atomicInt) load() int64 { a.mu.Lock(); defer a.mu.Unlock(); return a.v }
